@@ -108,7 +108,7 @@ pub unsafe extern "C" fn pthread_create(t: *mut libc::pthread_t, attr: *const li
         let boxed = Box::into_raw(Box::new(Tramp { start, arg, id }));
         let r = real(t, attr, tramp, boxed as *mut c_void);
         if r == 0 {
-            sim::thread_spawned(id);
+            sim::thread_spawned_as(id, *t);
         } else {
             drop(Box::from_raw(boxed));
             sim::thread_never_started(id);
